@@ -73,6 +73,54 @@ Proof.
   apply N.eqb_neq in H1. contradiction.
 Qed.
 
+Lemma filter_id {A} (f : A -> bool) l : (forall a, In a l -> f a = true) -> filter f l = l.
+Proof.
+  induction l as [|a l IH]; cbn; intros H; [reflexivity|].
+  rewrite (H a (or_introl eq_refl)). f_equal. apply IH. intros b Hb. apply H. right. exact Hb.
+Qed.
+
+(* Gate::subscribe for a requester that is gone: insert, then remove - the map is as before *)
+Lemma m_del_ins_fresh x l m : (forall e, In e m -> fst e <> x) -> m_del x (m_ins (x, l) m) = m.
+Proof.
+  intros H. unfold m_ins, m_del. cbn [fst]. rewrite filter_app. cbn [filter].
+  replace (key_neq x (x, l)) with false by (unfold key_neq; cbn; rewrite N.eqb_refl; reflexivity).
+  rewrite app_nil_r.
+  assert (E : filter (key_neq x) m = m).
+  { apply filter_id. intros e He. unfold key_neq. apply negb_true_iff, N.eqb_neq, H, He. }
+  rewrite E. exact E.
+Qed.
+
+Lemma In_m_del_ins e x l m : In e (m_del x (m_ins (x, l) m)) -> In e m.
+Proof.
+  intros H. apply In_m_del in H. destruct H as [H Hn]. apply In_m_ins in H.
+  destruct H as [[H _]|E]; [exact H|]. subst e. cbn in Hn. contradiction.
+Qed.
+
+(* an abandoned Subscribe: only the Subscribe of that link changes in the queue *)
+Lemma kill_sub_eq l c : kill_sub l c = c \/ (c = CSub l /\ kill_sub l c = CSubDead l).
+Proof.
+  destruct c; cbn; auto. destruct (N.eqb_spec l0 l) as [->|Hn]; auto.
+Qed.
+
+Lemma in_map_kill l c rq : In c (map (kill_sub l) rq) -> c = CSubDead l \/ (In c rq /\ c <> CSub l).
+Proof.
+  rewrite in_map_iff. intros (c0 & E & Hin). destruct (kill_sub_eq l c0) as [E1|[E1 E2]].
+  - right. rewrite E1 in E. subst c0. split; [exact Hin|]. intros ->. cbn in E1. rewrite N.eqb_refl in E1. discriminate E1.
+  - left. congruence.
+Qed.
+
+Lemma in_map_kill_keep l c rq : In c rq -> (forall l', c <> CSub l') -> In c (map (kill_sub l) rq).
+Proof.
+  intros Hin Hc. apply in_map_iff. exists c. split; [|exact Hin].
+  destruct (kill_sub_eq l c) as [E|[E _]]; [exact E|destruct (Hc _ E)].
+Qed.
+
+Lemma in_map_kill_sub l l' rq : l' <> l -> In (CSub l') rq -> In (CSub l') (map (kill_sub l) rq).
+Proof.
+  intros Hn Hin. apply in_map_iff. exists (CSub l'). split; [|exact Hin].
+  cbn. destruct (N.eqb_spec l' l); [contradiction|reflexivity].
+Qed.
+
 (* ------------------------------------------------- what each action touches *)
 
 Definition pub_action (a : action) : bool :=
@@ -83,7 +131,7 @@ Lemma root_handle_frame s c :
   completed (root_handle s c) = completed s /\ chans (root_handle s c) = chans s /\
   received (root_handle s c) = received s.
 Proof.
-  des_st s. destruct c as [l|x|x [|]|c|c|]; cbn; try (repeat split; reflexivity).
+  des_st s. destruct c as [l|x|x [|]|c|c| |ld]; cbn; try (repeat split; reflexivity).
   - destruct (m_find x u); cbn; repeat split; reflexivity.
   - destruct (m_find x su); cbn; repeat split; reflexivity.
 Qed.
@@ -114,9 +162,9 @@ Lemma step_frame cf s a : pub_action a = false ->
 Proof.
   intros Ha. destruct a; try discriminate Ha; cbn [step].
   - destruct (links s l); [destruct (root_dropped s)|..]; des_st s; cbn; repeat split; reflexivity.
-  - destruct (links s l); [| |destruct (is_direct l)]; des_st s; cbn; repeat split; reflexivity.
-  - destruct (links s l) as [| |x b0]; [| |destruct (Bool.eqb b b0)]; des_st s; cbn; repeat split; reflexivity.
-  - destruct (links s l) as [| |x b0]; [| |destruct (is_direct l); [|destruct (ch_q (chans s x)) as [|[p n] q]]];
+  - destruct (links s l); [| |destruct (is_direct l)|]; des_st s; cbn; repeat split; reflexivity.
+  - destruct (links s l) as [| |x b0|xa]; [| |destruct (Bool.eqb b b0)|]; des_st s; cbn; repeat split; reflexivity.
+  - destruct (links s l) as [| |x b0|xa]; [| |destruct (is_direct l); [|destruct (ch_q (chans s x)) as [|[p n] q]]|];
       des_st s; cbn; repeat split; reflexivity.
   - des_st s; cbn; repeat split; reflexivity.
   - destruct (root_term s || root_dropped s); [repeat split; reflexivity|].
@@ -133,6 +181,8 @@ Proof.
         des_st s; cbn; repeat split; reflexivity.
   - destruct (c_alive (clones s c) && pub_idle s c && negb (c =? 0)); des_st s; cbn; repeat split; reflexivity.
   - des_st s; cbn; repeat split; reflexivity.
+  - destruct (links s l) as [| |x b0|xa]; des_st s; cbn; repeat split; reflexivity.
+  - destruct (links s l) as [| |x b0|xa]; [| | |destruct (cf_guard cf); destruct (is_direct l)]; des_st s; cbn; repeat split; reflexivity.
 Qed.
 
 (* the receiver of a slot's channel, once dropped, stays dropped *)
@@ -140,10 +190,10 @@ Lemma rx_mono cf s a x : ch_rx (chans s x) = false -> ch_rx (chans (step cf s a)
 Proof.
   intros H. destruct a; cbn [step].
   - destruct (links s l); [destruct (root_dropped s)|..]; des_st s; cbn in *; exact H.
-  - destruct (links s l) as [| |y b0]; [| |destruct (is_direct l)]; des_st s; cbn in *; try exact H.
+  - destruct (links s l) as [| |y b0|ya]; [| |destruct (is_direct l)|]; des_st s; cbn in *; try exact H.
     unfold fupd. destruct (x =? y); [reflexivity|exact H].
-  - destruct (links s l) as [| |y b0]; [| |destruct (Bool.eqb b b0)]; des_st s; cbn in *; exact H.
-  - destruct (links s l) as [| |y b0]; [| |destruct (is_direct l); [|destruct (ch_q (chans s y)) as [|[p n] q] eqn:E]];
+  - destruct (links s l) as [| |y b0|ya]; [| |destruct (Bool.eqb b b0)|]; des_st s; cbn in *; exact H.
+  - destruct (links s l) as [| |y b0|ya]; [| |destruct (is_direct l); [|destruct (ch_q (chans s y)) as [|[p n] q] eqn:E]|];
       des_st s; cbn in *; try exact H.
     unfold fupd. destruct (N.eqb_spec x y); [subst; cbn; exact H|exact H].
   - des_st s; cbn in *; exact H.
@@ -169,6 +219,9 @@ Proof.
     subst. rewrite H in E1. discriminate.
   - destruct (pubs s p) as [n|n snap [|e rest] sent]; des_st s; cbn in *; exact H.
   - des_st s; cbn in *. unfold fupd. destruct (x =? x0); [reflexivity|exact H].
+  - destruct (links s l) as [| |y b0|ya]; des_st s; cbn in *; exact H.
+  - destruct (links s l) as [| |y b0|ya]; [| | |destruct (cf_guard cf); destruct (is_direct l)]; des_st s; cbn in *; try exact H;
+      unfold fupd; (destruct (x =? ya); [reflexivity|exact H]).
 Qed.
 
 (* ------------------------------------------------- sequences of deliveries *)
@@ -275,11 +328,12 @@ Qed.
 Lemma root_handle_upd_nodup s c :
   NoDup (map fst (upd s)) -> NoDup (map fst (upd (root_handle s c))).
 Proof.
-  intros H. des_st s. destruct c as [l|x|x [|]|c|c|]; cbn in *; try exact H.
+  intros H. des_st s. destruct c as [l|x|x [|]|c|c| |ld]; cbn in *; try exact H.
   - apply NoDup_keys_ins, H.
   - apply NoDup_keys_del, H.
   - destruct (m_find x u); cbn; [apply NoDup_keys_del, H|exact H].
   - destruct (m_find x su); cbn; [apply NoDup_keys_ins, H|exact H].
+  - apply NoDup_keys_del, NoDup_keys_ins, H.
 Qed.
 
 Lemma step_upd_nodup cf s a :
@@ -287,9 +341,9 @@ Lemma step_upd_nodup cf s a :
 Proof.
   intros H. destruct a; cbn [step].
   - destruct (links s l); [destruct (root_dropped s)|..]; des_st s; cbn in *; exact H.
-  - destruct (links s l) as [| |y b0]; [| |destruct (is_direct l)]; des_st s; cbn in *; exact H.
-  - destruct (links s l) as [| |y b0]; [| |destruct (Bool.eqb b b0)]; des_st s; cbn in *; exact H.
-  - destruct (links s l) as [| |y b0]; [| |destruct (is_direct l); [|destruct (ch_q (chans s y)) as [|[p n] q] eqn:E]];
+  - destruct (links s l) as [| |y b0|ya]; [| |destruct (is_direct l)|]; des_st s; cbn in *; exact H.
+  - destruct (links s l) as [| |y b0|ya]; [| |destruct (Bool.eqb b b0)|]; des_st s; cbn in *; exact H.
+  - destruct (links s l) as [| |y b0|ya]; [| |destruct (is_direct l); [|destruct (ch_q (chans s y)) as [|[p n] q] eqn:E]|];
       des_st s; cbn in *; exact H.
   - des_st s; cbn in *; exact H.
   - destruct (root_term s || root_dropped s); [exact H|].
@@ -314,6 +368,8 @@ Proof.
     des_st s; cbn in *; exact H.
   - destruct (pubs s p) as [n|n snap [|e rest] sent]; des_st s; cbn in *; exact H.
   - des_st s; cbn in *; exact H.
+  - destruct (links s l) as [| |y b0|ya]; des_st s; cbn in *; exact H.
+  - destruct (links s l) as [| |y b0|ya]; [| | |destruct (cf_guard cf); destruct (is_direct l)]; des_st s; cbn in *; exact H.
 Qed.
 
 (* ------------------------------------ what the three publisher actions do *)
@@ -373,7 +429,7 @@ Proof.
       - intros p. eapply boundP_rx_mono; [exact Hrx|apply H2].
       - exact H3.
       - intros p n sn b Hin e He. destruct (H4 p n sn b Hin e He) as [?|?]; [left; assumption|right; apply Hrx; assumption]. }
-  destruct a as [| | | | | | | | | |p|p|p|xd]; try discriminate Ha; clear Ha.
+  destruct a as [| | | | | | | | | |p|p|p|xd|la|la]; try discriminate Ha; clear Ha.
   - (* begin *)
     destruct (step_begin_spec cf s p) as [E|(n & Ep & _ & Ep' & Ed & Ec)].
     { rewrite E. repeat split; assumption. }
@@ -480,7 +536,39 @@ Definition InvLP (u su : list entry) (ns : N) (rq : list cmd) (lk : N -> lstate)
   (forall pre post l, rq = pre ++ CSub l :: post -> ~ In (CSub l) post) /\
   (forall pre post l, rq = pre ++ CSub l :: post -> forall x, In (x, l) (u ++ su) -> In (CUnsub x) pre).
 
-Definition InvL (s : st) : Prop := InvLP (upd s) (sus s) (nslot s) (rootq s) (links s).
+(* The gate's view of a link: while the answer naming slot x waits in the oneshot ([LAnsw x]) the
+   link owns slot x exactly as if connect() had already returned. The invariants are stated on this
+   view, so [APick] does not change them and an abandoned answered connect ([AAbandon] from
+   [LAnsw x], after the repair) is, for the gate, a disconnect. *)
+Definition lview (x : lstate) : lstate := match x with LAnsw s => LConn s false | _ => x end.
+Arguments lview : simpl nomatch.
+Definition vlinks (s : st) : N -> lstate := fun l => lview (links s l).
+
+Definition InvL (s : st) : Prop := InvLP (upd s) (sus s) (nslot s) (rootq s) (vlinks s).
+
+Lemma lview_fupd lk l v k : lview (fupd lk l v k) = fupd (fun j => lview (lk j)) l (lview v) k.
+Proof. unfold fupd. destruct (k =? l); reflexivity. Qed.
+
+Lemma invL_ext u su ns rq lk lk' : (forall l, lk' l = lk l) ->
+  InvLP u su ns rq lk -> InvLP u su ns rq lk'.
+Proof.
+  intros E (K1 & K2 & K3 & L2 & L3 & Q1 & Q2 & Q3). repeat split; try assumption.
+  - intros x l Hin. rewrite E. exact (L2 x l Hin).
+  - intros l x b. rewrite E. apply L3.
+  - intros l Hin. rewrite E. exact (Q1 l Hin).
+Qed.
+
+Lemma invL_view_set u su ns rq lk l v :
+  InvLP u su ns rq (fupd (fun j => lview (lk j)) l (lview v)) ->
+  InvLP u su ns rq (fun k => lview (fupd lk l v k)).
+Proof. apply invL_ext. intros k. apply lview_fupd. Qed.
+
+Lemma invL_ns_mono u su ns ns' rq lk : ns <= ns' -> InvLP u su ns rq lk -> InvLP u su ns' rq lk.
+Proof.
+  intros Hle (K1 & K2 & K3 & L2 & L3 & Q1 & Q2 & Q3). repeat split; try assumption.
+  - intros e He. specialize (K2 e He). lia.
+  - intros l x b E. specialize (L3 l x b E). lia.
+Qed.
 
 Lemma app_single_split {A} (rq : list A) c pre x post :
   rq ++ [c] = pre ++ x :: post ->
@@ -563,6 +651,34 @@ Proof.
     exact (Q3 _ _ _ E').
 Qed.
 
+(* the connect() future of link l is dropped while Subscribe is still queued: the queued command
+   becomes a Subscribe nobody waits for *)
+Lemma map_kill_split l rq pre post c : (forall l', c <> CSubDead l') -> map (kill_sub l) rq = pre ++ c :: post ->
+  exists pre0 post0, rq = pre0 ++ c :: post0 /\ pre = map (kill_sub l) pre0 /\ post = map (kill_sub l) post0.
+Proof.
+  intros Hc E. apply map_eq_app in E. destruct E as (pre0 & r & -> & E1 & E2).
+  apply map_eq_cons in E2. destruct E2 as (c0 & post0 & -> & E2 & E3).
+  exists pre0, post0. split; [|split; symmetry; assumption].
+  destruct (kill_sub_eq l c0) as [E|[_ E]]; [congruence|rewrite E in E2; exfalso; exact (Hc _ (eq_sym E2))].
+Qed.
+
+Lemma invL_kill u su ns rq lk l : lk l = LPending ->
+  InvLP u su ns rq lk -> InvLP u su ns (map (kill_sub l) rq) (fupd lk l LIdle).
+Proof.
+  intros Hl (K1 & K2 & K3 & L2 & L3 & Q1 & Q2 & Q3). repeat split; try assumption.
+  - intros x l' Hin. destruct (L2 x l' Hin) as [[b Hb]|Hu].
+    + left. exists b. rewrite fupd_neq; [exact Hb|]. intros ->. rewrite Hl in Hb. discriminate Hb.
+    + right. apply in_map_kill_keep; [exact Hu|discriminate].
+  - intros l' x b. destruct (N.eq_dec l' l) as [->|Hn]; [rewrite fupd_eq; discriminate|].
+    rewrite fupd_neq by exact Hn. apply L3.
+  - intros l' Hin. apply in_map_kill in Hin. destruct Hin as [D|[Hin Hn]]; [discriminate D|].
+    rewrite fupd_neq; [apply Q1, Hin|]. intros ->. apply Hn. reflexivity.
+  - intros pre post l' E. destruct (map_kill_split l rq pre post (CSub l') ltac:(discriminate) E) as (pre0 & post0 & E0 & -> & ->).
+    intros Hin. apply in_map_kill in Hin. destruct Hin as [D|[Hin _]]; [discriminate D|exact (Q2 _ _ _ E0 Hin)].
+  - intros pre post l' E x Hin. destruct (map_kill_split l rq pre post (CSub l') ltac:(discriminate) E) as (pre0 & post0 & E0 & -> & ->).
+    apply in_map_kill_keep; [exact (Q3 _ _ _ E0 x Hin)|discriminate].
+Qed.
+
 (* members of the maps after the root handled a command come from before *)
 Lemma invL_pop_subset u su ns c q lk u' su' :
   (forall e, In e (u' ++ su') -> In e (u ++ su)) ->
@@ -621,9 +737,9 @@ Qed.
 
 Lemma invL_root_handle s c q : rootq s = c :: q -> InvL s -> InvL (root_handle (set_rootq q s) c).
 Proof.
-  unfold InvL. intros E H. des_st s. cbn in *. subst rq.
-  destruct c as [l|x|x [|]|c|c|]; cbn.
-  - apply invL_pop_sub, H.
+  unfold InvL, vlinks. intros E H. des_st s. cbn in *. subst rq.
+  destruct c as [l|x|x [|]|c|c| |ld]; cbn.
+  - apply (invL_view_set _ _ _ _ _ _ (LAnsw ns)). apply invL_pop_sub, H.
   - eapply invL_pop_subset; [| | |exact H].
     + intros e He. apply in_app_or in He. apply in_or_app.
       destruct He as [He|He]; apply In_m_del in He; tauto.
@@ -645,21 +761,29 @@ Proof.
   - eapply invL_pop_subset; [| | |exact H]; try discriminate. auto.
   - eapply invL_pop_subset; [| | |exact H]; try discriminate. auto.
   - eapply invL_pop_subset; [| | |exact H]; try discriminate. auto.
+  - (* a Subscribe nobody waits for: the slot is inserted and removed again *)
+    assert (Hfresh : forall e, In e u -> fst e <> ns).
+    { destruct H as (_ & K2 & _). intros e He E. specialize (K2 e (in_or_app _ _ _ (or_introl He))). lia. }
+    rewrite (m_del_ins_fresh ns ld u Hfresh). apply (invL_ns_mono _ _ ns); [lia|].
+    eapply invL_pop_subset; [| | |exact H]; try discriminate. auto.
 Qed.
 
-Lemma invL_step cf s a : cf_follow cf = false -> InvL s -> InvL (step cf s a).
+Lemma invL_step cf s a : cf_follow cf = false -> cf_guard cf = true -> InvL s -> InvL (step cf s a).
 Proof.
-  intros Hcf H. destruct a; cbn [step].
+  intros Hcf Hg H. destruct a; cbn [step].
   - destruct (links s l) eqn:El; try exact H. destruct (root_dropped s); [exact H|].
-    unfold InvL in *. des_st s; cbn in *. apply invL_send_sub; assumption.
-  - destruct (links s l) as [| |x b0] eqn:El; try exact H.
+    unfold InvL, vlinks in *. des_st s; cbn in *. apply (invL_view_set _ _ _ _ _ _ LPending).
+    apply invL_send_sub; [rewrite El; reflexivity|exact H].
+  - destruct (links s l) as [| |x b0|xa] eqn:El; try exact H.
     assert (H' : InvL (set_rootq (rootq s ++ [CUnsub x]) (set_links (fupd (links s) l LIdle) s))).
-    { unfold InvL in *. des_st s; cbn in *. eapply invL_send_unsub; eassumption. }
-    destruct (is_direct l); [exact H'|]. unfold InvL in *. des_st s; cbn in *. exact H'.
-  - destruct (links s l) as [| |x b0] eqn:El; try exact H. destruct (Bool.eqb b b0); [exact H|].
-    unfold InvL in *. des_st s; cbn in *. apply invL_push_misc; [reflexivity|].
-    eapply invL_relabel; eassumption.
-  - destruct (links s l) as [| |x b0]; try exact H. destruct (is_direct l); [exact H|].
+    { unfold InvL, vlinks in *. des_st s; cbn in *. apply (invL_view_set _ _ _ _ _ _ LIdle).
+      eapply invL_send_unsub; [rewrite El; reflexivity|exact H]. }
+    destruct (is_direct l); [exact H'|]. unfold InvL, vlinks in *. des_st s; cbn in *. exact H'.
+  - destruct (links s l) as [| |x b0|xa] eqn:El; try exact H. destruct (Bool.eqb b b0); [exact H|].
+    unfold InvL, vlinks in *. des_st s; cbn in *. apply invL_push_misc; [reflexivity|].
+    apply (invL_view_set _ _ _ _ _ _ (LConn x b)).
+    eapply invL_relabel; [rewrite El; reflexivity|exact H].
+  - destruct (links s l) as [| |x b0|xa]; try exact H. destruct (is_direct l); [exact H|].
     destruct (ch_q (chans s x)) as [|[p n] q]; [exact H|]. unfold InvL in *. des_st s; cbn in *. exact H.
   - unfold InvL in *. des_st s; cbn in *. apply invL_push_misc; [reflexivity|exact H].
   - destruct (root_term s || root_dropped s); [exact H|].
@@ -680,6 +804,19 @@ Proof.
     destruct (N.of_nat (length (ch_q (chans s y))) <? cf_cap cf); exact H.
   - destruct (pubs s p) as [n|n snap [|e rest] sent]; exact H.
   - exact H.
+  - (* APick: the gate's view does not change *)
+    destruct (links s l) as [| |x b0|xa] eqn:El; try exact H.
+    unfold InvL, vlinks in *. des_st s; cbn in *. apply (invL_view_set _ _ _ _ _ _ (LConn xa false)).
+    eapply (invL_relabel _ _ _ _ _ _ xa false false); [rewrite El; reflexivity|exact H].
+  - (* AAbandon *)
+    destruct (links s l) as [| |x b0|xa] eqn:El; try exact H.
+    + unfold InvL, vlinks in *. des_st s; cbn in *. apply (invL_view_set _ _ _ _ _ _ LIdle).
+      apply invL_kill; [rewrite El; reflexivity|exact H].
+    + rewrite Hg.
+      assert (H' : InvL (set_rootq (rootq s ++ [CUnsub xa]) (set_links (fupd (links s) l LIdle) s))).
+      { unfold InvL, vlinks in *. des_st s; cbn in *. apply (invL_view_set _ _ _ _ _ _ LIdle).
+        eapply invL_send_unsub; [rewrite El; reflexivity|exact H]. }
+      destruct (is_direct l); [exact H'|]. unfold InvL, vlinks in *. des_st s; cbn in *. exact H'.
 Qed.
 
 Lemma invL_init : InvL init.
@@ -723,7 +860,7 @@ Proof.
   intros (D1 & D2 & _ & _) (_ & _ & K3 & _) (H2 & H3).
   destruct (pub_action a) eqn:Ha.
   2:{ destruct (step_frame cf s a Ha) as (Ep & Ed & _). unfold InvLD. rewrite Ep, Ed. split; assumption. }
-  destruct a as [| | | | | | | | | |p|p|p|xd]; try discriminate Ha; clear Ha.
+  destruct a as [| | | | | | | | | |p|p|p|xd|la|la]; try discriminate Ha; clear Ha.
   - destruct (step_begin_spec cf s p) as [E|(n & Ep & _ & Ep' & Ed & _)].
     { rewrite E. split; assumption. }
     unfold InvLD. rewrite Ep', Ed. split; [|exact H3].
@@ -770,9 +907,9 @@ Proof. split; intros; exact I. Qed.
 
 Definition InvFixed (s : st) : Prop := InvD s /\ InvL s /\ InvLD s.
 
-Lemma invFixed_run cf tr : cf_follow cf = false -> InvFixed (run cf tr).
+Lemma invFixed_run cf tr : cf_follow cf = false -> cf_guard cf = true -> InvFixed (run cf tr).
 Proof.
-  intros Hcf. unfold run. apply run_from_inv.
+  intros Hcf Hg. unfold run. apply run_from_inv.
   - intros s a (HD & HL & HLD). split; [|split].
     + apply invD_step, HD.
     + apply invL_step; assumption.
@@ -788,25 +925,97 @@ Lemma at_most_once_in_order_per_slot cf tr x p :
 Proof. destruct (invD_run cf tr) as (_ & _ & H & _). apply H. Qed.
 
 (* per link (what a component sees): needs the repair *)
-Lemma at_most_once_in_order cf tr l p : cf_follow cf = false ->
+Lemma at_most_once_in_order cf tr l p : cf_follow cf = false -> cf_guard cf = true ->
   strictly_desc (lseqs_of l p (delivered (run cf tr))).
-Proof. intros Hcf. destruct (invFixed_run cf tr Hcf) as (_ & _ & _ & H). apply H. Qed.
+Proof. intros Hcf Hg. destruct (invFixed_run cf tr Hcf Hg) as (_ & _ & _ & H). apply H. Qed.
+
+(* ---- abandoned connects leave nothing behind *)
+
+Lemma lview_conn ls x b : lview ls = LConn x b -> holds_slot ls x.
+Proof.
+  destruct ls as [| |y c|y]; cbn; intros E; try discriminate E.
+  - inversion E; subst. left. exists b. reflexivity.
+  - inversion E; subst. right. reflexivity.
+Qed.
+
+(* No orphan slot, on every schedule - links may give up on connect() before or after the gate
+   answered, the gate may lag behind by any number of commands: every slot in `updates` or
+   `suspended` belongs to a link that holds it (connect() returned that slot, or the answer naming
+   it waits in the oneshot), or the Unsubscribe for it is queued at the gate. *)
+Lemma no_orphan_slot cf tr x l : cf_follow cf = false -> cf_guard cf = true ->
+  In (x, l) (upd (run cf tr) ++ sus (run cf tr)) ->
+  holds_slot (links (run cf tr) l) x \/ In (CUnsub x) (rootq (run cf tr)).
+Proof.
+  intros Hcf Hg Hin. destruct (invFixed_run cf tr Hcf Hg) as (_ & (_ & _ & _ & L2 & _) & _).
+  destruct (L2 x l Hin) as [[b Hb]|Hu]; [left|right; exact Hu].
+  unfold vlinks in Hb. eapply lview_conn, Hb.
+Qed.
+
+(* ... and never two slots for one link (one direct-update target, one queue): what a publisher
+   snapshots holds every link at most once *)
+Lemma one_slot_per_link cf tr x1 x2 l : cf_follow cf = false -> cf_guard cf = true ->
+  In (x1, l) (upd (run cf tr) ++ sus (run cf tr)) -> In (x2, l) (upd (run cf tr) ++ sus (run cf tr)) -> x1 = x2.
+Proof.
+  intros Hcf Hg H1 H2. destruct (invFixed_run cf tr Hcf Hg) as (_ & (_ & _ & K3 & _) & _).
+  specialize (K3 _ _ H1 H2 eq_refl). congruence.
+Qed.
+
+(* a link that has given up (it is idle again) with nothing of its own on its way to the gate has
+   no slot in the gate *)
+Lemma idle_link_has_no_slot cf tr x l : cf_follow cf = false -> cf_guard cf = true ->
+  links (run cf tr) l = LIdle -> ~ In (CUnsub x) (rootq (run cf tr)) ->
+  ~ In (x, l) (upd (run cf tr) ++ sus (run cf tr)).
+Proof.
+  intros Hcf Hg Hl Hq Hin. destruct (no_orphan_slot cf tr x l Hcf Hg Hin) as [[[b Hb]|Hb]|Hu];
+    [rewrite Hl in Hb; discriminate Hb|rewrite Hl in Hb; discriminate Hb|exact (Hq Hu)].
+Qed.
+
+(* the gate handling a Subscribe whose requester is gone (insert, answer fails, remove) leaves both
+   maps as they were *)
+Lemma dead_subscribe_is_noop cf tr l q : cf_follow cf = false -> cf_guard cf = true ->
+  let s := run cf tr in
+  rootq s = CSubDead l :: q -> rnote s = [] -> root_term s || root_dropped s = false ->
+  upd (step cf s ARoot) = upd s /\ sus (step cf s ARoot) = sus s /\ links (step cf s ARoot) = links s /\
+  rootq (step cf s ARoot) = q /\ rnote (step cf s ARoot) = [].
+Proof.
+  intros Hcf Hg s Eq En Et. destruct (invFixed_run cf tr Hcf Hg) as (_ & (_ & K2 & _) & _). fold s in K2.
+  cbn [step]. rewrite Et, En, Eq.
+  assert (Hfresh : forall e, In e (upd s) -> fst e <> nslot s).
+  { intros e He E. specialize (K2 e (in_or_app _ _ _ (or_introl He))). lia. }
+  des_st s. cbn in *. rewrite (m_del_ins_fresh ns l u Hfresh). repeat split; try reflexivity. exact En.
+Qed.
+
+(* Link::connect as it was (cf_guard = false): the future is dropped after the gate answered and
+   before the answer was picked up; the slot stays. The component connects again: two slots, one
+   target, every update twice. Schedule = the case `b 1;c 1;u 0`. *)
+Definition lost_answer_witness : list action :=
+  [ASendSub 1; ARoot; AAbandon 1;        (* b 1 *)
+   ASendSub 1; ARoot; APick 1;           (* c 1 *)
+   ABegin 0; ADeliver 0; ADeliver 0; AEnd 0].
+
+Lemma lost_answer_refuted :
+  exists cf tr l p, cf_follow cf = false /\ cf_guard cf = false /\
+    ~ strictly_desc (lseqs_of l p (delivered (run cf tr))).
+Proof.
+  exists (MkCfg 2 false false), lost_answer_witness, 1, 0. split; [reflexivity|]. split; [reflexivity|].
+  vm_compute. intros [H _]. discriminate H.
+Qed.
 
 (* the pinned code: a clone replaying FollowSubscribe late re-inserts the old slot of a
    direct link that has meanwhile unsubscribed and subscribed again; the link then gets
    the next update twice. Schedule = the case `k;c 1;d 1;F 1;c 1;u 0`. *)
 Definition dup_witness : list action :=
   [AClone; ARoot;                       (* k *)
-   ASendSub 1; ARoot; ARoot;            (* c 1 (Subscribe handled; FollowSubscribe sent to clone 1) *)
+   ASendSub 1; ARoot; ARoot; APick 1;   (* c 1 (Subscribe handled; FollowSubscribe sent to clone 1) *)
    ASendUnsub 1; ARoot; ARoot;          (* d 1 *)
    ACloneStep 1;                        (* F 1: FollowSubscribe replayed, process() returns Active *)
-   ASendSub 1; ARoot; ARoot;            (* c 1 *)
+   ASendSub 1; ARoot; ARoot; APick 1;   (* c 1 *)
    ABegin 0; ADeliver 0; ADeliver 0; AEnd 0].
 
 Lemma follow_replay_refuted :
   exists cf tr l p, cf_follow cf = true /\ ~ strictly_desc (lseqs_of l p (delivered (run cf tr))).
 Proof.
-  exists (MkCfg 2 true), dup_witness, 1, 0. split; [reflexivity|].
+  exists (MkCfg 2 true true), dup_witness, 1, 0. split; [reflexivity|].
   vm_compute. intros [H _]. discriminate H.
 Qed.
 
@@ -907,6 +1116,12 @@ Proof.
   intros c H. apply in_app_or in H. destruct H as [H|[E|[]]]; [apply H2; exact H|destruct (Hx _ E)].
 Qed.
 
+Lemma invA_kill nc rq cl l : InvAP nc rq cl -> InvAP nc (map (kill_sub l) rq) cl.
+Proof.
+  intros (H0 & H1 & H2). split; [exact H0|]. split; [exact H1|].
+  intros c Hin. apply in_map_kill in Hin. destruct Hin as [D|[Hin _]]; [discriminate D|apply H2, Hin].
+Qed.
+
 Lemma invA_pop nc c0 q cl : InvAP nc (c0 :: q) cl -> InvAP nc q cl.
 Proof. intros (H0 & H1 & H2). split; [exact H0|]. split; [exact H1|]. intros c H. apply H2. right. exact H. Qed.
 
@@ -918,7 +1133,7 @@ Lemma invA_root_handle s c q : rootq s = c :: q -> InvA s -> InvA (root_handle (
 Proof.
   unfold InvA. intros E H. des_st s. cbn in *. subst rq.
   pose proof (invA_pop _ _ _ _ H) as Hp.
-  destruct c as [l|x|x [|]|c|c|]; cbn; try exact Hp.
+  destruct c as [l|x|x [|]|c|c| |ld]; cbn; try exact Hp.
   - destruct (m_find x u); exact Hp.
   - destruct (m_find x su); exact Hp.
   - destruct H as (H0 & H1 & H2). destruct Hp as (_ & _ & H2'). split; [exact H0|]. split; [|exact H2'].
@@ -931,13 +1146,13 @@ Proof.
   intros H. destruct a; cbn [step]; try exact H.
   - destruct (links s l); [destruct (root_dropped s)|..]; try exact H.
     unfold InvA in *. des_st s; cbn in *. apply invA_push; [discriminate|exact H].
-  - destruct (links s l) as [| |x b0]; try exact H.
+  - destruct (links s l) as [| |x b0|xa]; try exact H.
     assert (H' : InvA (set_rootq (rootq s ++ [CUnsub x]) (set_links (fupd (links s) l LIdle) s))).
     { unfold InvA in *. des_st s; cbn in *. apply invA_push; [discriminate|exact H]. }
     destruct (is_direct l); exact H'.
-  - destruct (links s l) as [| |x b0]; [| |destruct (Bool.eqb b b0)]; try exact H.
+  - destruct (links s l) as [| |x b0|xa]; [| |destruct (Bool.eqb b b0)|]; try exact H.
     unfold InvA in *. des_st s; cbn in *. apply invA_push; [discriminate|exact H].
-  - destruct (links s l) as [| |x b0]; [| |destruct (is_direct l); [|destruct (ch_q (chans s x)) as [|[p n] q]]]; exact H.
+  - destruct (links s l) as [| |x b0|xa]; [| |destruct (is_direct l); [|destruct (ch_q (chans s x)) as [|[p n] q]]|]; exact H.
   - unfold InvA in *. des_st s; cbn in *. apply invA_push; [discriminate|exact H].
   - destruct (root_term s || root_dropped s); [exact H|].
     destruct (rnote s) as [|nh nt] eqn:En.
@@ -971,6 +1186,13 @@ Proof.
     destruct (negb (ch_rx (chans s y))); [exact H|]. destruct (is_direct l); [exact H|].
     destruct (N.of_nat (length (ch_q (chans s y))) <? cf_cap cf); exact H.
   - destruct (pubs s p) as [n|n snap [|e rest] sent]; exact H.
+  - destruct (links s l) as [| |x b0|xa]; exact H.
+  - destruct (links s l) as [| |x b0|xa]; try exact H.
+    + unfold InvA in *. des_st s; cbn in *. apply invA_kill, H.
+    + assert (H' : InvA (if cf_guard cf then set_rootq (rootq s ++ [CUnsub xa]) (set_links (fupd (links s) l LIdle) s)
+                         else set_links (fupd (links s) l LIdle) s)).
+      { destruct (cf_guard cf); unfold InvA in *; des_st s; cbn in *; [apply invA_push; [discriminate|exact H]|exact H]. }
+      destruct (is_direct l); [exact H'|]. destruct (cf_guard cf); unfold InvA in *; des_st s; cbn in *; exact H'.
 Qed.
 
 Lemma invA_init : InvA init.
@@ -1063,7 +1285,7 @@ Proof.
   pose proof (invT_quiet _ _ H eq_refl) as Hq.
   assert (Hsame0 : forall c0 : N, c_alive (cl c0) = c_alive (cl c0) /\ c_term (cl c0) = c_term (cl c0) /\ c_q (cl c0) = c_q (cl c0))
     by (intros; repeat split).
-  destruct c as [l|x|x [|]|c|c|]; cbn.
+  destruct c as [l|x|x [|]|c|c| |ld]; cbn.
   - eapply invT_same_but_att; [exact Hsame0|exact Hq|reflexivity| |apply note_list_ok|exact H].
     intros Hin. apply note_list_fin in Hin. discriminate Hin.
   - eapply invT_same_but_att; [exact Hsame0|exact Hq|reflexivity| |apply note_list_ok|exact H].
@@ -1079,15 +1301,17 @@ Proof.
     + intros _ c Ha Hatt. right. apply note_list_term_reaches; [exact Hatt|].
       cbn. destruct HA as (_ & HA1 & _). specialize (HA1 c Hatt). lia.
     + intros _ c Ha Hs. destruct (Hq c Ha Hs).
+  - (* a Subscribe nobody waits for: the clones are not told *)
+    exact H.
 Qed.
 
 Lemma invT_step cf s a : InvA s -> InvT s -> InvT (step cf s a).
 Proof.
   intros HA H. destruct a; cbn [step]; try exact H.
   - destruct (links s l); [destruct (root_dropped s)|..]; exact H.
-  - destruct (links s l) as [| |x b0]; [| |destruct (is_direct l)]; exact H.
-  - destruct (links s l) as [| |x b0]; [| |destruct (Bool.eqb b b0)]; exact H.
-  - destruct (links s l) as [| |x b0]; [| |destruct (is_direct l); [|destruct (ch_q (chans s x)) as [|[p n] q]]]; exact H.
+  - destruct (links s l) as [| |x b0|xa]; [| |destruct (is_direct l)|]; exact H.
+  - destruct (links s l) as [| |x b0|xa]; [| |destruct (Bool.eqb b b0)|]; exact H.
+  - destruct (links s l) as [| |x b0|xa]; [| |destruct (is_direct l); [|destruct (ch_q (chans s x)) as [|[p n] q]]|]; exact H.
   - (* ARoot *)
     destruct (root_term s || root_dropped s) eqn:Et; [exact H|].
     apply orb_false_iff in Et. destruct Et as [Et Ed].
@@ -1177,6 +1401,8 @@ Proof.
     destruct (negb (ch_rx (chans s y))); [exact H|]. destruct (is_direct l); [exact H|].
     destruct (N.of_nat (length (ch_q (chans s y))) <? cf_cap cf); exact H.
   - destruct (pubs s p) as [n|n snap [|e rest] sent]; exact H.
+  - destruct (links s l) as [| |x b0|xa]; exact H.
+  - destruct (links s l) as [| |x b0|xa]; [| | |destruct (cf_guard cf); destruct (is_direct l)]; exact H.
 Qed.
 Lemma invT_init : InvT init.
 Proof.
@@ -1440,7 +1666,7 @@ Proof.
   rewrite (H a (or_introl eq_refl)). apply IH. intros b Hb. apply H. right. exact Hb.
 Qed.
 
-Definition hol_churn : list action := [ASendSub 1; ARoot; ARoot; ARoot; ASendUnsub 1; ARoot; ARoot; ARoot].
+Definition hol_churn : list action := [ASendSub 1; ARoot; ARoot; ARoot; APick 1; ASendUnsub 1; ARoot; ARoot; ARoot].
 Definition hol_witness : list action :=
   [AClone; ARoot; AClone; ARoot] ++ hol_churn ++ hol_churn ++ hol_churn ++ hol_churn ++ hol_churn ++ hol_churn ++ hol_churn ++ hol_churn
   ++ [ASendTerm; ARoot; ARoot; ARoot] ++ repeat (ACloneStep 2) 16.
@@ -1452,7 +1678,7 @@ Lemma terminate_head_of_line :
     forall tr2, (forall a, In a tr2 -> a = ARoot \/ a = ACloneStep 2) ->
       c_term (clones (run_from cf s tr2) 2) = false.
 Proof.
-  exists (MkCfg 2 false), hol_witness. cbv zeta.
+  exists (MkCfg 2 false true), hol_witness. cbv zeta.
   split; [vm_compute; reflexivity|]. split; [vm_compute; reflexivity|]. split; [vm_compute; reflexivity|].
   split; [vm_compute; reflexivity|]. split; [vm_compute; reflexivity|].
   intros tr2 H2. rewrite run_from_fix; [vm_compute; reflexivity|].
@@ -1480,7 +1706,60 @@ Definition InvCP (u su : list entry) (ns : N) (rq : list cmd) (lk : N -> lstate)
   (forall pre post x b0, rq = pre ++ CSusp x b0 :: post -> susp_pending x post = false ->
      forall l b, lk l = LConn x b -> b = b0).
 
-Definition InvC (s : st) : Prop := InvCP (upd s) (sus s) (nslot s) (rootq s) (links s).
+Definition InvC (s : st) : Prop := InvCP (upd s) (sus s) (nslot s) (rootq s) (vlinks s).
+
+Lemma invC_ext u su ns rq lk lk' : (forall l, lk' l = lk l) ->
+  InvCP u su ns rq lk -> InvCP u su ns rq lk'.
+Proof.
+  intros E (C0 & Cf & Cf2 & Cu & C1 & C2 & C3). repeat split; try assumption.
+  - intros x Hin l b. rewrite E. exact (C0 x Hin l b).
+  - intros l l' x b b'. rewrite !E. apply Cu.
+  - intros l x b. rewrite E. apply C1.
+  - intros l x b. rewrite E. apply C2.
+  - intros pre post x b0 E1 Hp l b. rewrite E. exact (C3 pre post x b0 E1 Hp l b).
+Qed.
+
+Lemma invC_view_set u su ns rq lk l v :
+  InvCP u su ns rq (fupd (fun j => lview (lk j)) l (lview v)) ->
+  InvCP u su ns rq (fun k => lview (fupd lk l v k)).
+Proof. apply invC_ext. intros k. apply lview_fupd. Qed.
+
+Lemma invC_ns_mono u su ns ns' rq lk : ns <= ns' -> InvCP u su ns rq lk -> InvCP u su ns' rq lk.
+Proof.
+  intros Hle (C0 & Cf & Cf2 & Cu & C1 & C2 & C3). repeat split; try assumption.
+  - intros x Hin. specialize (Cf x Hin). lia.
+  - intros x b Hin. specialize (Cf2 x b Hin). lia.
+Qed.
+
+Lemma sp_map_kill x l q : susp_pending x (map (kill_sub l) q) = susp_pending x q.
+Proof.
+  unfold susp_pending. induction q as [|c q IH]; [reflexivity|]. cbn [map existsb]. rewrite IH. f_equal.
+  destruct c; cbn; try reflexivity. destruct (l0 =? l); reflexivity.
+Qed.
+
+(* a connect() given up before the gate got to it: Subscribe l becomes a Subscribe nobody waits
+   for; the link goes from pending to idle *)
+Lemma invC_kill u su ns rq lk lk' l :
+  (forall l' x b, lk' l' = LConn x b <-> lk l' = LConn x b) ->
+  InvCP u su ns rq lk -> InvCP u su ns (map (kill_sub l) rq) lk'.
+Proof.
+  intros Hlk (C0 & Cf & Cf2 & Cu & C1 & C2 & C3). repeat split.
+  - intros x Hin l' b E. apply in_map_kill in Hin. destruct Hin as [D|[Hin _]]; [discriminate D|].
+    apply Hlk in E. exact (C0 x Hin l' b E).
+  - intros x Hin. apply in_map_kill in Hin. destruct Hin as [D|[Hin _]]; [discriminate D|exact (Cf x Hin)].
+  - intros x b Hin. apply in_map_kill in Hin. destruct Hin as [D|[Hin _]]; [discriminate D|exact (Cf2 x b Hin)].
+  - intros l1 l2 x b b' E1 E2. apply Hlk in E1. apply Hlk in E2. eapply Cu; eassumption.
+  - intros l' x b E. apply Hlk in E. eapply C1, E.
+  - intros l' x b E Hp. apply Hlk in E. rewrite sp_map_kill in Hp. exact (C2 l' x b E Hp).
+  - intros pre post x b0 E Hp l' b El. apply Hlk in El.
+    destruct (map_kill_split l rq pre post (CSusp x b0) ltac:(discriminate) E) as (pre0 & post0 & E0 & -> & ->).
+    rewrite sp_map_kill in Hp. exact (C3 _ _ _ _ E0 Hp l' b El).
+Qed.
+
+Lemma lview_pick lk l xa k : lk l = LAnsw xa -> lview (fupd lk l (LConn xa false) k) = lview (lk k).
+Proof.
+  intros E. unfold fupd. destruct (N.eqb_spec k l) as [->|_]; [rewrite E|]; reflexivity.
+Qed.
 
 (* appending a command that is neither Unsubscribe nor Suspension; links may change at l
    between states that are not LConn *)
@@ -1680,34 +1959,42 @@ Qed.
 
 Lemma invC_root_handle s c q : rootq s = c :: q -> InvL s -> InvC s -> InvC (root_handle (set_rootq q s) c).
 Proof.
-  unfold InvL, InvC. intros E HL H. des_st s. cbn in *. subst rq.
-  destruct c as [l|x|x b0|c|c|].
-  - cbn. apply invC_pop_sub; assumption.
+  unfold InvL, InvC, vlinks. intros E HL H. des_st s. cbn in *. subst rq.
+  destruct c as [l|x|x b0|c|c| |ld].
+  - cbn. apply (invC_view_set _ _ _ _ _ _ (LAnsw ns)). apply invC_pop_sub; assumption.
   - cbn. apply invC_pop_unsub, H.
-  - pose proof (invC_pop_susp u su ns x b0 q lk HL H) as H'. cbn zeta in H'.
+  - pose proof (invC_pop_susp u su ns x b0 q _ HL H) as H'. cbn zeta in H'.
     destruct b0; cbn in *.
     + destruct (m_find x u); cbn in *; exact H'.
     + destruct (m_find x su); cbn in *; exact H'.
   - cbn. eapply invC_pop_misc; [| |exact H]; discriminate.
   - cbn. eapply invC_pop_misc; [| |exact H]; discriminate.
   - cbn. eapply invC_pop_misc; [| |exact H]; discriminate.
+  - cbn.
+    assert (Hfresh : forall e, In e u -> fst e <> ns).
+    { destruct HL as (_ & K2 & _). intros e He E. specialize (K2 e (in_or_app _ _ _ (or_introl He))). lia. }
+    rewrite (m_del_ins_fresh ns ld u Hfresh). apply (invC_ns_mono _ _ ns); [lia|].
+    eapply invC_pop_misc; [| |exact H]; discriminate.
 Qed.
 
-Lemma invC_step cf s a : cf_follow cf = false -> InvL s -> InvC s -> InvC (step cf s a).
+Lemma invC_step cf s a : cf_follow cf = false -> cf_guard cf = true -> InvL s -> InvC s -> InvC (step cf s a).
 Proof.
-  intros Hcf HL H. destruct a; cbn [step]; try exact H.
+  intros Hcf Hg HL H. destruct a; cbn [step]; try exact H.
   - destruct (links s l) eqn:El; try exact H. destruct (root_dropped s); [exact H|].
-    unfold InvC in *. des_st s; cbn in *. eapply invC_push_other; [discriminate|discriminate| |exact H].
-    intros l' x b. destruct (N.eq_dec l' l) as [->|Hn]; [rewrite fupd_eq, El; split; discriminate|rewrite fupd_neq by exact Hn; tauto].
-  - destruct (links s l) as [| |x b0] eqn:El; try exact H.
+    unfold InvC, vlinks in *. des_st s; cbn in *. eapply invC_push_other; [discriminate|discriminate| |exact H].
+    intros l' x b. rewrite lview_fupd. cbn [lview].
+    destruct (N.eq_dec l' l) as [->|Hn]; [rewrite fupd_eq, El; split; discriminate|rewrite fupd_neq by exact Hn; tauto].
+  - destruct (links s l) as [| |x b0|xa] eqn:El; try exact H.
     assert (H' : InvC (set_rootq (rootq s ++ [CUnsub x]) (set_links (fupd (links s) l LIdle) s))).
-    { unfold InvC, InvL in *. des_st s; cbn in *. eapply invC_send_unsub; [exact El| |exact H].
-      destruct HL as (_ & _ & _ & _ & L3 & _). eapply L3, El. }
+    { unfold InvC, InvL, vlinks in *. des_st s; cbn in *. apply (invC_view_set _ _ _ _ _ _ LIdle).
+      eapply invC_send_unsub; [rewrite El; reflexivity| |exact H].
+      destruct HL as (_ & _ & _ & _ & L3 & _). eapply (L3 l x b0). rewrite El. reflexivity. }
     destruct (is_direct l); exact H'.
-  - destruct (links s l) as [| |x b0] eqn:El; try exact H. destruct (Bool.eqb b b0); [exact H|].
-    unfold InvC, InvL in *. des_st s; cbn in *. eapply invC_send_susp; [exact El| |exact H].
+  - destruct (links s l) as [| |x b0|xa] eqn:El; try exact H. destruct (Bool.eqb b b0); [exact H|].
+    unfold InvC, InvL, vlinks in *. des_st s; cbn in *. apply (invC_view_set _ _ _ _ _ _ (LConn x b)).
+    eapply invC_send_susp; [rewrite El; reflexivity| |exact H].
     destruct HL as (_ & _ & _ & _ & L3 & _). intros y bb E. eapply L3, E.
-  - destruct (links s l) as [| |x b0]; try exact H. destruct (is_direct l); [exact H|].
+  - destruct (links s l) as [| |x b0|xa]; try exact H. destruct (is_direct l); [exact H|].
     destruct (ch_q (chans s x)) as [|[p n] q]; exact H.
   - unfold InvC in *. des_st s; cbn in *. eapply invC_push_other; [discriminate|discriminate| |exact H]. tauto.
   - destruct (root_term s || root_dropped s); [exact H|].
@@ -1726,6 +2013,21 @@ Proof.
     destruct (negb (ch_rx (chans s y))); [exact H|]. destruct (is_direct l); [exact H|].
     destruct (N.of_nat (length (ch_q (chans s y))) <? cf_cap cf); exact H.
   - destruct (pubs s p) as [n|n snap [|e rest] sent]; exact H.
+  - (* APick: the gate's view does not change *)
+    destruct (links s l) as [| |x b0|xa] eqn:El; try exact H.
+    unfold InvC, vlinks in *. des_st s; cbn in *. eapply invC_ext; [|exact H].
+    intros k. apply lview_pick, El.
+  - (* AAbandon *)
+    destruct (links s l) as [| |x b0|xa] eqn:El; try exact H.
+    + unfold InvC, vlinks in *. des_st s; cbn in *. eapply invC_kill; [|exact H].
+      intros l' x b. rewrite lview_fupd. cbn [lview].
+      destruct (N.eq_dec l' l) as [->|Hn]; [rewrite fupd_eq, El; split; discriminate|rewrite fupd_neq by exact Hn; tauto].
+    + rewrite Hg.
+      assert (H' : InvC (set_rootq (rootq s ++ [CUnsub xa]) (set_links (fupd (links s) l LIdle) s))).
+      { unfold InvC, InvL, vlinks in *. des_st s; cbn in *. apply (invC_view_set _ _ _ _ _ _ LIdle).
+        eapply invC_send_unsub; [rewrite El; reflexivity| |exact H].
+        destruct HL as (_ & _ & _ & _ & L3 & _). eapply (L3 l xa false). rewrite El. reflexivity. }
+      destruct (is_direct l); exact H'.
 Qed.
 
 Lemma invC_init : InvC init.
@@ -1734,20 +2036,20 @@ Proof.
     match goal with E : [] = ?pre ++ _ :: _ |- _ => destruct pre; discriminate E end.
 Qed.
 
-Lemma invLC_run cf tr : cf_follow cf = false -> InvL (run cf tr) /\ InvC (run cf tr).
+Lemma invLC_run cf tr : cf_follow cf = false -> cf_guard cf = true -> InvL (run cf tr) /\ InvC (run cf tr).
 Proof.
-  intros Hcf. unfold run. apply (run_from_inv (fun s => InvL s /\ InvC s)).
+  intros Hcf Hg. unfold run. apply (run_from_inv (fun s => InvL s /\ InvC s)).
   - intros s a [HL HC]. split; [apply invL_step|apply invC_step]; assumption.
   - split; [exact invL_init|exact invC_init].
 Qed.
 
 (* a link that is connected and not suspended (in its own eyes, with no suspension request of
    its own still travelling) is in `updates`: the next snapshot of ANY publisher contains it *)
-Lemma active_link_in_updates cf tr l x : cf_follow cf = false ->
+Lemma active_link_in_updates cf tr l x : cf_follow cf = false -> cf_guard cf = true ->
   link_active (run cf tr) l x -> In (x, l) (upd (run cf tr)).
 Proof.
-  intros Hcf [E Hp]. destruct (invLC_run cf tr Hcf) as [_ (_ & _ & _ & _ & _ & C2 & _)].
-  exact (C2 l x false E Hp).
+  intros Hcf Hg [E Hp]. destruct (invLC_run cf tr Hcf Hg) as [_ (_ & _ & _ & _ & _ & C2 & _)].
+  apply (C2 l x false); [unfold vlinks; rewrite E; reflexivity|exact Hp].
 Qed.
 
 (* ---------------- composite: exactly once while connected (trace level) *)
@@ -1763,7 +2065,7 @@ Lemma track_step cf p n e s a : Track p n e s -> Track p n e (step cf s a).
 Proof.
   intros H. destruct (pub_action a) eqn:Ha.
   2:{ destruct (step_frame cf s a Ha) as (Ep & _ & Ec). unfold Track. rewrite Ep, Ec. exact H. }
-  destruct a as [| | | | | | | | | |q|q|q|xd]; try discriminate Ha; clear Ha.
+  destruct a as [| | | | | | | | | |q|q|q|xd|la|la]; try discriminate Ha; clear Ha.
   - destruct (step_begin_spec cf s q) as [E|(m & Eq & _ & Ep' & _ & Ec)]; [rewrite E; exact H|].
     unfold Track. rewrite Ep', Ec. destruct H as [(snap & rest & sent & E1 & E2)|H]; [left|right; exact H].
     destruct (N.eq_dec p q) as [->|Hn]; [rewrite Eq in E1; discriminate E1|].
@@ -1785,15 +2087,15 @@ Qed.
 (* If link l is connected through slot x and unsuspended when publisher p starts update n,
    then - whatever else happens - once that update_data call has returned, n has been handed
    to l, unless l itself dropped its receiver (disconnected) in the meantime. *)
-Lemma exactly_once_while_connected cf tr1 tr2 l x p n : cf_follow cf = false ->
+Lemma exactly_once_while_connected cf tr1 tr2 l x p n : cf_follow cf = false -> cf_guard cf = true ->
   link_active (run cf tr1) l x ->
   pubs (run cf tr1) p = PIdle n -> pub_alive (run cf tr1) p = true ->
   let s2 := run cf (tr1 ++ ABegin p :: tr2) in
   (exists m, pubs s2 p = PIdle m) ->
   In (x, l, p, n) (delivered s2) \/ ch_rx (chans s2 x) = false.
 Proof.
-  intros Hcf Hact Hp Ha s2 [m Hm].
-  pose proof (active_link_in_updates cf tr1 l x Hcf Hact) as Hin.
+  intros Hcf Hg Hact Hp Ha s2 [m Hm].
+  pose proof (active_link_in_updates cf tr1 l x Hcf Hg Hact) as Hin.
   assert (Ht : Track p n (x, l) s2).
   { subst s2. rewrite run_app.
     change (run_from cf (run cf tr1) (ABegin p :: tr2)) with (run_from cf (step cf (run cf tr1) (ABegin p)) tr2).
@@ -1812,15 +2114,15 @@ Lemma step_m_other cf s a : ends_now s a = false ->
 Proof.
   intros Ha. destruct a; cbn [step].
   - destruct (links s l); [destruct (root_dropped s)|..]; des_st s; cbn; repeat split; reflexivity.
-  - destruct (links s l); [| |destruct (is_direct l)]; des_st s; cbn; repeat split; reflexivity.
-  - destruct (links s l) as [| |x b0]; [| |destruct (Bool.eqb b b0)]; des_st s; cbn; repeat split; reflexivity.
-  - destruct (links s l) as [| |x b0]; [| |destruct (is_direct l); [|destruct (ch_q (chans s x)) as [|[p n] q]]];
+  - destruct (links s l); [| |destruct (is_direct l)|]; des_st s; cbn; repeat split; reflexivity.
+  - destruct (links s l) as [| |x b0|xa]; [| |destruct (Bool.eqb b b0)|]; des_st s; cbn; repeat split; reflexivity.
+  - destruct (links s l) as [| |x b0|xa]; [| |destruct (is_direct l); [|destruct (ch_q (chans s x)) as [|[p n] q]]|];
       des_st s; cbn; repeat split; reflexivity.
   - des_st s; cbn; repeat split; reflexivity.
   - destruct (root_term s || root_dropped s); [repeat split; reflexivity|].
     destruct (rnote s) as [|nh nt] eqn:En; [|note_shape s; repeat split; reflexivity].
     destruct (rootq s) as [|c q] eqn:E; [repeat split; reflexivity|].
-    des_st s. destruct c as [l|x|x [|]|c|c|]; cbn; try (repeat split; reflexivity).
+    des_st s. destruct c as [l|x|x [|]|c|c| |ld]; cbn; try (repeat split; reflexivity).
     + destruct (m_find x u); cbn; repeat split; reflexivity.
     + destruct (m_find x su); cbn; repeat split; reflexivity.
   - destruct (pub_idle s 0); des_st s; cbn; repeat split; reflexivity.
@@ -1838,6 +2140,8 @@ Proof.
     destruct (N.of_nat (length (ch_q (chans s y))) <? cf_cap cf); des_st s; cbn; repeat split; reflexivity.
   - cbn [ends_now] in Ha. destruct (pubs s p) as [n|n snap [|e rest] sent]; try (repeat split; reflexivity). discriminate Ha.
   - des_st s; cbn; repeat split; reflexivity.
+  - destruct (links s l) as [| |x b0|xa]; des_st s; cbn; repeat split; reflexivity.
+  - destruct (links s l) as [| |x b0|xa]; [| | |destruct (cf_guard cf); destruct (is_direct l)]; des_st s; cbn; repeat split; reflexivity.
 Qed.
 
 Lemma step_m_end cf s a : ends_now s a = true ->
@@ -1887,7 +2191,7 @@ Proof.
       assert (He : ends_now s a = false) by (destruct a; try reflexivity; discriminate Ha).
       destruct (step_m_other cf s a He) as (Eu & Edr & _).
       unfold InvM. rewrite Ep, Ed, Ec, Eu, Edr. repeat split; assumption. }
-  destruct a as [| | | | | | | | | |p|p|p|xd]; try discriminate Ha; clear Ha.
+  destruct a as [| | | | | | | | | |p|p|p|xd|la|la]; try discriminate Ha; clear Ha.
   - (* begin *)
     destruct (step_m_other cf s (ABegin p) eq_refl) as (Eu & Edr & _).
     destruct (step_begin_spec cf s p) as [E|(n & Ep & _ & Ep' & Ed & Ec)].
